@@ -55,11 +55,12 @@ enum Kind {
     H_REPORT,       // a period: report() without clearing the buffer first (C14)
     H_STASH,        // GlobalMemoryAllocatorStash save() ... restore() around nothing: the current allocators must come back unchanged
     H_MODE,         // overload mode history: a 0 = off then on again, 1 = save+disable then restore, 2 = switch between the thread-safe and the default overloads
+    H_COUNT_RESET,  // cpputest_malloc_count_reset(): the C-level allocation counter starts again; nothing else changes (a pending countdown stays pending)
     H_SSB,          // free-standing SimpleStringBuffer op: a kind (0 add text of length b, 1 memory dump of b bytes, 2 setWriteLimit b, 3 resetWriteLimit, 4 clear)
     H_COUNT
 };
 static const char* const kNames[H_COUNT] = { "none", "alloc", "free", "realloc", "enable", "disable", "start_checking", "stop_checking", "mark", "stage_inc", "stage_dec", "stage_free",
-    "clear_accounting", "query", "flip", "bad_free", "fault", "typecheck", "wrap", "calloc", "strdup", "designate_n", "designate_at", "check_done", "clear_fails", "oom_set", "oom_countdown", "oom_clear", "report", "stash", "mode", "ssb" };
+    "clear_accounting", "query", "flip", "bad_free", "fault", "typecheck", "wrap", "calloc", "strdup", "designate_n", "designate_at", "check_done", "clear_fails", "oom_set", "oom_countdown", "oom_clear", "report", "stash", "mode", "count_reset", "ssb" };
 static const char* kindName(int k) { return k >= 0 && k < H_COUNT ? kNames[k] : "none"; }
 static int kindFromName(const char* s) { for (int i = 0; i < H_COUNT; i++) if (!strcmp(s, kNames[i])) return i; return H_NONE; }
 
@@ -313,6 +314,7 @@ struct Engine : public vf::Engine {
         if (acc && w.chance(1, 6)) nSlots = (int)w.range(100, 250);
         int longLoc = dia ? (w.chance(1, 12) ? (int)w.range(3000, 5000) : (int)w.range(1, 900)) : 0;      // sometimes a location string about as long as the report buffer
         Str longFile; if (dia) { longFile.assign((size_t)longLoc, 'p'); longFile += ".c"; }
+        Str hugeFile; if (dia && w.chance(1, 30)) { hugeFile.assign((size_t)(w.chance(1, 3) ? w.range(126000, 131600) : w.range(60000, 66000)), 'h'); hugeFile += ".c"; }      // rarely, and for a few operations only: a location string around 2^16 or 2^17 characters
         if (oom) {                                         // install a failable allocator for one or all families
             int fams = (int)w.below(4);
             for (int k = 0; k < 3; k++) if (fams == 3 || fams == k) { Op o(H_WRAP); o.a = k; o.b = 4; H.ops.push_back(o); }
@@ -357,8 +359,8 @@ struct Engine : public vf::Engine {
                 else if (x < 97) { o.kind = H_REALLOC; o.a = (int64_t)w.below((uint64_t)nSlots); o.c = w.small(0, 100); if (w.chance(1, 8)) o.c = (int64_t)(SIZE_MAX - (size_t)w.below(200)); else if (w.chance(1, 5)) o.c = -1; }      // some refused (overflowing) requests: the block must stay what it was; some requests for the size the block already has
                 else { o.kind = H_QUERY; o.a = (int64_t)w.below(4); }
             } else if (dia) {
-                if (x < 30) { o.kind = H_BADFREE; o.a = w.range(1, 4); o.b = (int64_t)w.below(3); o.c = (int64_t)w.below(600); o.s = w.chance(2, 3) ? longFile : Str("s.c"); }
-                else if (x < 60) { o.kind = H_ALLOC; o.a = (int64_t)w.below(N_SLOTS); o.b = (int64_t)w.below(3); o.c = w.chance(4, 5) ? w.small(0, 64) : w.range(0, 5000); o.phase = (int)w.below(3); o.s = w.chance(1, 2) ? longFile : Str("a.c"); }
+                if (x < 30) { o.kind = H_BADFREE; o.a = w.range(1, 4); o.b = (int64_t)w.below(3); o.c = (int64_t)w.below(600); o.s = w.chance(2, 3) ? longFile : Str("s.c"); if (!hugeFile.empty() && w.chance(1, 12)) o.s = hugeFile; }
+                else if (x < 60) { o.kind = H_ALLOC; o.a = (int64_t)w.below(N_SLOTS); o.b = (int64_t)w.below(3); o.c = w.chance(4, 5) ? w.small(0, 64) : w.range(0, 5000); o.phase = (int)w.below(3); o.s = w.chance(1, 2) ? longFile : Str("a.c"); if (!hugeFile.empty() && w.chance(1, 12)) o.s = hugeFile; }
                 else if (x < 66) { o.kind = H_FREE; o.a = (int64_t)w.below(N_SLOTS); o.c = w.chance(1, 3) ? w.range(1, 4) : 0; }
                 else if (x < 72) { o.kind = H_START; }
                 else if (x < 88) { o.kind = H_REPORT; o.a = (int64_t)w.below(4); }
@@ -373,7 +375,8 @@ struct Engine : public vf::Engine {
                 else if (x < 86) o.kind = H_CHECK_DONE;
                 else if (x < 89) o.kind = H_CLEAR_FAILS;
                 else if (x < 92 && !faultFree) { if (w.chance(1, 2)) { o.kind = H_OOM_COUNTDOWN; o.a = (int64_t)w.below(21); if (w.chance(1, 8)) { static const int neg[] = { -1, -2, -3, -10, -1000 }; o.a = neg[w.below(5)]; } } else o.kind = H_OOM_SET; }      // a negative count means: no countdown
-                else if (x < 94) o.kind = H_OOM_CLEAR;
+                else if (x < 93) o.kind = H_OOM_CLEAR;
+                else if (x < 94) o.kind = H_COUNT_RESET;
                 else if (x < 97) { o.kind = H_STRDUP; o.a = (int64_t)w.below((uint64_t)nSlots); o.c = w.small(0, 40); o.b = w.chance(1, 2) ? -1 : w.small(0, 50); int s = (int)w.below(N_SITES); o.s = siteFile(s); o.d = (int64_t)siteLine(s); }
                 else { o.kind = H_CALLOC; o.a = (int64_t)w.below((uint64_t)nSlots); o.b = w.small(1, 8); o.c = w.small(1, 8); int s = (int)w.below(N_SITES); o.s = siteFile(s); o.d = (int64_t)siteLine(s);
                     if (w.chance(1, 6)) {      // a product that does not fit: the C library's calloc answers NULL, whatever the factors look like one by one
@@ -896,6 +899,7 @@ struct Engine : public vf::Engine {
             case H_OOM_SET: cpputest_malloc_set_out_of_memory(); W.oomAll = true; W.oomCountdown = -1; fired("c_out_of_memory"); break;
             case H_OOM_COUNTDOWN: cpputest_malloc_set_out_of_memory_countdown((int)o.a); W.oomCountdown = (int)o.a; if (o.a == 0) W.oomAll = true; fired("c_out_of_memory_countdown"); break;
             case H_OOM_CLEAR: { cpputest_malloc_set_not_out_of_memory(); W.oomAll = false; W.oomCountdown = -1; } break;      // clearing restores what was in place before out-of-memory was switched on (the model's failableFor[] does not change)
+            case H_COUNT_RESET: cpputest_malloc_count_reset(); fired("c_malloc_count_reset"); break;
             case H_STASH: { GlobalMemoryAllocatorStash st; st.save(); st.restore(); probe("allocator_stash_round_trip"); break; }
             case H_MODE: {      // nothing is allocated or released in between: every block stays tracked, every later call is tracked again
                 if (o.a == 0) { MemoryLeakWarningPlugin::turnOffNewDeleteOverloads(); if (W.threadsafeNow) MemoryLeakWarningPlugin::turnOnThreadSafeNewDeleteOverloads(); else MemoryLeakWarningPlugin::turnOnDefaultNotThreadSafeNewDeleteOverloads(); }
